@@ -4,7 +4,11 @@ import core
 from . import proggen as G
 
 ID = "C20"
-THEOREMS = ["Portus.C20.comments_do_not_lower", "Portus.C20.comments_irrelevant", "Portus.C20.compile_deterministic",
+AUDIT_IMPORTS = ["PortusModel.Props.C20Layout"]
+THEOREMS = ["Portus.C20.layout_same_image", "Portus.C20.comments_same_program", "Portus.C20.rendering_parses",
+            "Portus.Lang.parse_render", "Portus.Lang.layout_independent", "Portus.Lang.comments_only_add_none",
+            "Portus.Lang.rexpr_parses", "Portus.Lang.revents_parse", "Portus.Lang.rdefs_parse", "Portus.Lang.spelling_table",
+            "Portus.C20.comments_do_not_lower", "Portus.C20.comments_irrelevant", "Portus.C20.compile_deterministic",
             "Portus.C20.image_deterministic", "Portus.C20.spelling_table", "Portus.C20.spellings_cover", "Portus.Lang.compile_uid_indep"]
 RELATION = "compile_and_serialize image + Scope::get listing, and the parser's Debug AST, for every layout variant of a program"
 RULE = ("generated well-typed programs of the documented grammar (Report block and legacy declarations, volatile markers, 1..5 events, "
@@ -21,13 +25,16 @@ EXPLANATION = ("theorems: comments among statements do not lower (compileBody ig
                "both are decided here by generated programs x layouts against the real compiler")
 ASSUMPTIONS = ["documented exclusions: identifiers starting with true/false/a digit/__ (and 'volatile' in declarations); at most one comment "
                "line directly before an event; a comment must end with a newline"]
-LEVEL_TEXT = ("PARTIAL. Machine-checked (Lean 4): comments in event bodies never change the compiled program; compiling the same source "
-              "under any two uids yields the same image and register mapping; the operator spelling table is unambiguous. Not yet a "
-              "theorem: that every whitespace/comment layout of a documented program parses to the same tree (T2 parse_render, in "
-              "progress) and that every documented, well-typed program within the limits is accepted. Those two are decided by a "
-              "metamorphic differential check: generated programs x layouts through the real compiler must be accepted and byte-identical.")
+LEVEL_TEXT = ("PARTIAL. Machine-checked proof (Lean 4): every rendering of a program tree - any run of space/tab/CR/LF at every gap (empty "
+              "where two tokens cannot merge), any spelling of each operator, any numeral of each number, comment lines before events and "
+              "among statements - is parsed back to that tree (parse_render over the nom-combinator model of the parser), hence all "
+              "renderings compile to the same image and register mapping (layout_same_image) and renderings differing only in comments "
+              "compile to the same program (comments_same_program); compiling under any two uids gives the same image; the spelling "
+              "table is unambiguous. Not a theorem: that every well-typed documented program within the limits is ACCEPTED by the type "
+              "checker/compiler - decided by the metamorphic differential check (generated programs x layouts through the real compiler "
+              "must be accepted and byte-identical, parser ASTs compared with the model's).")
 LEVEL_NOTE = "Trusts: Lean kernel for the proved parts; sampling of programs and layouts for acceptance and whitespace-invariance."
-TECHNIQUE = "Lean 4 theorems (comment/uid/spelling invariance) + metamorphic differential check over layouts (oracle in Lean) + correspondence incl. parser AST"
+TECHNIQUE = "Lean 4 proof of parse-of-rendering = tree (layout, spelling, numeral, comment invariance end to end) + uid independence; metamorphic differential check over layouts for acceptance; parser AST correspondence"
 
 
 def layouts(rng, p, n):
